@@ -184,3 +184,67 @@ func Harness_C09_Nested() {
 	}
 	verifCover("end")
 }
+
+// several matches on the same union in one run: each is judged on its own
+// (coverage of one match must not leak into another: earlier function,
+// later function, or a match nested inside an arm of another)
+func Harness_C09_TwoMatches() {
+	n := 3
+	shape := verifChoice("shape", 3) // 0: two functions, 1: inner match nested in an arm of the outer, 2: two functions in two files
+	// which cases each match names (non-empty subsets by bit mask)
+	m1 := 1 + verifChoice("mask1", 7)
+	m2 := 1 + verifChoice("mask2", 7)
+	arms := func(mask int, ind string, res string) string {
+		s := ""
+		for i := 0; i < n; i++ {
+			if mask&(1<<i) != 0 {
+				s += ind + "| Kase" + itoaV(i) + " -> " + res + "\n"
+			}
+		}
+		return s
+	}
+	typ := "type U =\n  | Kase0\n  | Kase1\n  | Kase2\n\n"
+	full := 7
+	accept := m1 == full && m2 == full
+	var files, contents []string
+	switch shape {
+	case 0:
+		src := "package main\n\n" + typ + "let f (u:U) =\n  match u with\n" + arms(m1, "  ", "1") + "\nlet g (u:U) =\n  match u with\n" + arms(m2, "  ", "2") + "\n"
+		files, contents = []string{"t.fo"}, []string{src}
+	case 1:
+		// the inner match sits in the first arm of the outer one
+		first := 0
+		for first < n && m1&(1<<first) == 0 {
+			first++
+		}
+		src := "package main\n\n" + typ + "let f (u:U) (w:U) =\n  match u with\n"
+		for i := 0; i < n; i++ {
+			if m1&(1<<i) == 0 {
+				continue
+			}
+			if i == first {
+				src += "  | Kase" + itoaV(i) + " ->\n    match w with\n" + arms(m2, "    ", "2")
+			} else {
+				src += "  | Kase" + itoaV(i) + " -> 1\n"
+			}
+		}
+		files, contents = []string{"t.fo"}, []string{src}
+	case 2:
+		a := "package main\n\n" + typ + "let f (u:U) =\n  match u with\n" + arms(m1, "  ", "1") + "\n"
+		b := "package main\n\nlet g (u:U) =\n  match u with\n" + arms(m2, "  ", "2") + "\n"
+		files, contents = []string{"t.fo", "t2.fo"}, []string{a, b}
+	}
+	args := []string{"fc"}
+	for i, f := range files {
+		verifSetFile(f, contents[i])
+		args = append(args, f)
+	}
+	verifSetArgs(args)
+	code := verifRunMain(main)
+	if accept {
+		verifAssert(code == 0, "every match covers every case: accepted: "+verifStdout())
+	} else {
+		verifAssert(code != 0, "a match that omits a case is rejected whatever other matches on the same union cover")
+	}
+	verifCover("end")
+}
